@@ -171,3 +171,36 @@ fn inverse_simple<S: Sample>(palette: SharedSubgrid<S>, targets: Vec<MutableSubg
         }
     }
 }
+
+/// Verification hooks (`--cfg jxl_oxide_verif`).
+#[cfg(jxl_oxide_verif)]
+pub mod verif {
+    use super::*;
+
+    pub fn new_palette(
+        begin_c: u32,
+        num_c: u32,
+        nb_colours: u32,
+        nb_deltas: u32,
+        d_pred: Predictor,
+        wp_header: Option<crate::predictor::WpHeader>,
+    ) -> Palette {
+        Palette {
+            begin_c,
+            num_c,
+            nb_colours,
+            nb_deltas,
+            d_pred,
+            wp_header,
+        }
+    }
+
+    pub fn inverse_inner<S: Sample>(
+        pal: &Palette,
+        palette: SharedSubgrid<S>,
+        targets: Vec<MutableSubgrid<S>>,
+        bit_depth: u32,
+    ) {
+        pal.inverse_inner(palette, targets, bit_depth)
+    }
+}
